@@ -941,7 +941,7 @@ func (x *g) template(file int, ns, name string) *Template {
 
 // Features lists the constructs Opts.Focus can name.
 var Features = []string{"augment-into-map", "augment-empty", "augment-onto-empty", "data-expr-call", "msg-only-let", "msg-only-param", "push-onto-range", "push-onto-data", "map-literal-print",
-	"css-expr", "literal", "default-first-switch", "plural-msg", "ifempty", "ij", "global", "nested-let-call", "deep-nesting", "long-value", "deep-calls", "phname-tag"}
+	"css-expr", "literal", "default-first-switch", "plural-msg", "ifempty", "ij", "global", "nested-let-call", "deep-nesting", "long-value", "deep-calls", "phname-tag", "mutual-data-all"}
 
 // FocusFor draws the focus of a case from its seed: none for two cases in five, otherwise one of
 // the Features.
@@ -1223,6 +1223,29 @@ func Generate(seed uint64, o Opts) *Case {
 	}
 	for k, s := range slots {
 		files[s.file].Templates = append(files[s.file].Templates, tmpls[k])
+	}
+	if o.Focus == "mutual-data-all" && len(files) > 0 {
+		// two templates that forward their params to each other with data="all" (never executed: the
+		// calls sit under {if false}), a third that really uses the param, an outside caller
+		f0, fl := files[0], files[len(files)-1]
+		full := func(f *File, n string) string {
+			if f == f0 {
+				return "." + n
+			}
+			return f.Namespace + "." + n
+		}
+		fwd := func(calls ...string) []*Node {
+			var body []*Node
+			for _, c := range calls {
+				body = append(body, &Node{K: "call", Tmpl: c, Data: "all"})
+			}
+			return []*Node{{K: "text", S: "m"}, {K: "if", E: "false", Body: body}}
+		}
+		f0.Templates = append(f0.Templates,
+			&Template{Name: "mua", Params: []Param{{Name: "b"}}, Body: fwd(".mub")},
+			&Template{Name: "mub", Params: []Param{{Name: "b"}}, Body: fwd(".mua", full(fl, "muc"))},
+			&Template{Name: "mud", Params: []Param{{Name: "b"}}, Body: []*Node{{K: "call", Tmpl: ".mua", Data: "all"}}})
+		fl.Templates = append(fl.Templates, &Template{Name: "muc", Params: []Param{{Name: "b"}}, Body: []*Node{{K: "print", E: "$b"}}})
 	}
 	x.c.Files = files
 	// data sets
